@@ -6,7 +6,6 @@ import (
 	"bufio"
 	"bytes"
 	"context"
-	"crypto/sha1"
 	"crypto/sha256"
 	"encoding/json"
 	"errors"
@@ -41,8 +40,6 @@ type pcfgFlags struct {
 	KeyGuard         bool `json:"key_guard"`
 	// not a model flag: can the Processor be driven at all (events channel and logger wired)?
 	ProcWired bool `json:"processor_wired"`
-	// the processor scenarios run on a child built with the wiring overlay (the two never-set fields)
-	Overlay bool `json:"wiring_overlay"`
 }
 
 func (c pcfgFlags) String() string {
@@ -50,7 +47,7 @@ func (c pcfgFlags) String() string {
 }
 
 func (c pcfgFlags) describe() string {
-	return fmt.Sprintf("wireGuard=%v processorWired=%v (overlay=%v) noPoison=%v localFromPresent=%v keyGuard=%v", c.WireGuard, c.ProcWired, c.Overlay, c.NoPoison, c.LocalFromPresent, c.KeyGuard)
+	return fmt.Sprintf("wireGuard=%v processorWired=%v noPoison=%v localFromPresent=%v keyGuard=%v", c.WireGuard, c.ProcWired, c.NoPoison, c.LocalFromPresent, c.KeyGuard)
 }
 
 type procStepT struct {
@@ -73,9 +70,6 @@ type procScenario struct {
 	// Once: every unit is handed over exactly once, as the engine does (no retry when the
 	// processor answers "processor channel full")
 	Once bool `json:"once,omitempty"`
-	// Plain (replays): run on the Processor exactly as the tree has it, even when the other
-	// scenarios need the wiring overlay (shows the two never-set fields)
-	Plain bool `json:"plain,omitempty"`
 }
 
 type procEvent struct {
@@ -299,8 +293,10 @@ func procChild(path string) {
 	// reordered). Once mode: a single call, as the engine makes it.
 	hand := func(u *propeller.Unit, sender peer.ID) string {
 		deadline := time.Now().Add(timeout)
+		attempts := 0
 		for {
 			drain()
+			attempts++
 			err := p.ProcessMessage(ctx, u, sender, w.sched)
 			if err == nil {
 				return "nil"
@@ -311,7 +307,9 @@ func procChild(path string) {
 				if sc.Once {
 					return "full"
 				}
-				if time.Now().After(deadline) {
+				// (wall clock AND a number of attempts: on an oversubscribed machine the whole child
+				// can be descheduled for most of the time-out)
+				if time.Now().After(deadline) && attempts >= 2000 {
 					return "stuck"
 				}
 				time.Sleep(300 * time.Microsecond)
@@ -482,8 +480,7 @@ func noteMachinery(msg string) {
 	childMachineryMu.Unlock()
 }
 
-// childBin: the binary that runs the scenarios (this binary, or the one built with the wiring
-// overlay).
+// childBin: the binary that runs the scenarios (this binary).
 var childBin = os.Args[0]
 
 func runProcChild(sc *procScenario) procRun {
@@ -782,7 +779,7 @@ func procCase0(h *hctx, sc *procScenario, pre *procRun) {
 	}
 
 	// --- correspondence with the model ---------------------------------------------------------
-	if !h.pcfg.ProcWired || h.driverBroken || sc.Once || (h.pcfg.Overlay && childBin == os.Args[0]) {
+	if !h.pcfg.ProcWired || h.driverBroken || sc.Once {
 		return
 	}
 	procModel(h, sc, w, obs, pr, rp)
@@ -1032,18 +1029,13 @@ func secProcessor(h *hctx, r *lib.RNG) {
 		return &procScenario{N: n, Local: local, Pub: pub, Msg: hx(genMsg(lib.NewRNG(uint64(n*100+msgLen)), msgLen)),
 			Nonce: "1758700000000000000", Steps: steps, TimeoutMs: h.f.Scale(1500, 3000)}
 	}
-	if h.pcfg.Overlay {
-		// The Processor of this tree cannot get past its first broadcast / first invalid unit (two
-		// fields are never set). Two scenarios on the UNMODIFIED binary show the two ways it fails;
-		// everything else runs on the child built with the wiring overlay.
-		plain := childBin
-		childBin = os.Args[0]
+	if !h.pcfg.ProcWired {
+		// The Processor of this tree does not have its logger / events channel set (repaired in
+		// c052836): it cannot get past its first broadcast or its first invalid unit. Two scenarios
+		// show the two ways it fails (violations with these inputs); nothing else can be driven.
 		procCase(h, mk(4, 0, 1, 20, honestSteps([]int{0, 1, 2})))                                                                // local shard first: blocks on the nil events channel
 		procCase(h, mk(4, 0, 1, 20, []procStepT{{Unit: 1, Corrupt: "shard-flip", Sender: "legit"}, {Unit: 1, Sender: "legit"}})) // invalid unit: Run logs through a nil logger
-		childBin = plain
-	}
-	if !h.pcfg.ProcWired {
-		h.res.Fatalf("the real Processor cannot be driven (not wired, and the wiring overlay could not be built)")
+		h.violate("processor-not-wired", "the Processor of this tree cannot be driven: "+h.pcfg.describe(), map[string]any{"kind": "processor", "scenario": mk(4, 0, 1, 20, honestSteps([]int{0, 1, 2}))})
 		return
 	}
 	bad := []string{"shard-flip", "proof-flip", "sig-flip", "index-oob", "index-next", "shards-none", "committee-flip", "nonce-plus1", "root-flip", "publisher-other"}
@@ -1286,10 +1278,9 @@ func permutations(n int) [][]int {
 	return out
 }
 
-// probeProcessor: can the Processor be driven, and which of the repairs does it carry? When the
-// Processor of the tree is not wired (events channel and logger never set) a second child binary is
-// built with a build OVERLAY that applies proposed-fixes/C19-processor-wiring.diff to copies of
-// processor.go / engine.go (nothing in /repo is touched) and the probes run on that.
+// probeProcessor: can the Processor be driven (events channel and logger set, c052836), and which
+// of the repairs 5ab3121 / d8826cb / 76dcbab does it carry? The model is driven with the probed flags
+// and the scenarios report a missing repair as a violation with the failing input.
 func probeProcessor(h *hctx) {
 	if !(h.cfg.ShardingLeafProto == h.cfg.ValidatorLeafProto && h.cfg.NonceSet) {
 		return
@@ -1318,18 +1309,7 @@ func probeProcessor(h *hctx) {
 	}
 	h.pcfg.ProcWired = wiredProbe()
 	if !h.pcfg.ProcWired {
-		bin, err := buildWiredChild()
-		if err != nil {
-			h.res.Fatalf("wiring overlay: %v", err)
-			return
-		}
-		childBin = bin
-		h.pcfg.Overlay = true
-		h.pcfg.ProcWired = wiredProbe()
-		if !h.pcfg.ProcWired {
-			h.res.Fatalf("the Processor is not drivable even with the wiring overlay")
-			return
-		}
+		return // secProcessor reports it with failing inputs
 	}
 	// noPoison: a bad first unit, then the honest local shard: is it broadcast?
 	sc := mk(4, 0, 1, []procStepT{{Unit: 1, Corrupt: "shard-flip", Sender: "legit"}, {Unit: 0, Sender: "legit"}})
@@ -1352,63 +1332,4 @@ func probeProcessor(h *hctx) {
 	if childMachineryErr != "" {
 		h.res.Fatalf("processor probes: %s", childMachineryErr)
 	}
-}
-
-// buildWiredChild builds this harness once more with a `go build -overlay` that replaces
-// processor.go and engine.go by copies with proposed-fixes/C19-processor-wiring.diff applied.
-func buildWiredChild() (string, error) {
-	verif, err := os.Getwd()
-	if err != nil {
-		return "", err
-	}
-	repo := os.Getenv("VERIF_REPO")
-	if repo == "" {
-		repo = "/repo"
-	}
-	tag := fmt.Sprintf("%x", sha1.Sum([]byte(repo)))[:8]
-	dir := verif + "/.build/c19-overlay-" + tag
-	rel := []string{"consensus/propeller/processor.go", "consensus/propeller/engine.go"}
-	if err := os.RemoveAll(dir + "/src"); err != nil {
-		return "", err
-	}
-	replace := map[string]string{}
-	for _, f := range rel {
-		b, err := os.ReadFile(repo + "/" + f)
-		if err != nil {
-			return "", err
-		}
-		dst := dir + "/src/" + f
-		if err := os.MkdirAll(dst[:strings.LastIndex(dst, "/")], 0o755); err != nil {
-			return "", err
-		}
-		if err := os.WriteFile(dst, b, 0o644); err != nil {
-			return "", err
-		}
-		replace[repo+"/"+f] = dst
-	}
-	diff := verif + "/proposed-fixes/C19-processor-wiring.diff"
-	// (outside any repository as far as git is concerned, so the paths of the diff are relative
-	// to the copy)
-	cmd := exec.Command("git", "apply", diff)
-	cmd.Dir = dir + "/src"
-	cmd.Env = append(os.Environ(), "GIT_CEILING_DIRECTORIES="+dir)
-	if out, err := cmd.CombinedOutput(); err != nil {
-		return "", fmt.Errorf("cannot apply %s to a copy of processor.go/engine.go: %v %s", diff, err, clip(string(out)))
-	}
-	ov, _ := json.Marshal(map[string]any{"Replace": replace})
-	if err := os.WriteFile(dir+"/overlay.json", ov, 0o644); err != nil {
-		return "", err
-	}
-	bin := dir + "/vh-c19-wired"
-	args := []string{"build", "-overlay", dir + "/overlay.json"}
-	if repo != "/repo" {
-		args = append(args, "-modfile="+verif+"/.build/go-"+tag+".mod")
-	}
-	args = append(args, "-tags", "verif", "-o", bin, "./cmd/c19")
-	b := exec.Command("go", args...)
-	b.Dir = verif + "/harness"
-	if out, err := b.CombinedOutput(); err != nil {
-		return "", fmt.Errorf("go %s: %v\n%s", strings.Join(args, " "), err, clip(string(out)))
-	}
-	return bin, nil
 }
